@@ -409,7 +409,7 @@ def fixture_notebooks():
 # ------------------------------------------------------------------ targeted three-way scenarios
 SCENARIOS = ['concurrent-insert', 'concurrent-insert', 'delete-vs-edit', 'same-line', 'different-lines', 'both-outputs', 'both-metadata',
              'insert-next-to-edit', 'delete-vs-transient', 'same-change', 'both-nbmeta', 'both-attachments', 'minor', 'replace-vs-transient', 'remove-output-vs-transient', 'dup-around-shared',
-             'replace-vs-insert', 'two-conflict-regions', 'output-mixed-keys', 'minor-down', 'remove-key-vs-transient']
+             'replace-vs-insert', 'two-conflict-regions', 'output-mixed-keys', 'minor-down', 'remove-key-vs-transient', 'stale-conflict-record']
 
 
 def similar_cell(rng, c, used):
@@ -593,6 +593,24 @@ def triple_scenario(rng, minor=None, first=None):
         elif sc == 'both-nbmeta':
             l['metadata']['foo'] = gen_metadata_extra(rng)
             r['metadata']['foo'] = gen_metadata_extra(rng)
+        elif sc == 'stale-conflict-record':
+            # the base still carries the `nbdime-conflicts` record an earlier conflicted merge left in a metadata dict
+            # (with content, emptied by hand, or null); the sides keep / remove / edit it and conflict on another key
+            metas = [(base['metadata'], l['metadata'], r['metadata'])] + \
+                    [(base['cells'][i]['metadata'], l['cells'][i]['metadata'], r['cells'][i]['metadata']) for i in common]
+            mb, ml, mr = rng.choice(metas)
+            rec = rng.choice([{'local_diff': [{'op': 'replace', 'key': 'k', 'value': 1}], 'remote_diff': [{'op': 'replace', 'key': 'k', 'value': 2}]}, {}, None])
+            for m in (mb, ml, mr):
+                m['nbdime-conflicts'] = copy.deepcopy(rec)
+            for m in (ml, mr):
+                act = rng.choice(['keep', 'remove', 'edit'])
+                if act == 'remove':
+                    del m['nbdime-conflicts']
+                elif act == 'edit':
+                    m['nbdime-conflicts'] = {'local_diff': [], 'remote_diff': [], 'note': rng.choice(['x', 'y'])}
+            mb['owner'] = 'base'
+            ml['owner'] = 'local'
+            mr['owner'] = 'remote'
         elif sc == 'both-attachments':
             cands = [i for i in common if l['cells'][i]['cell_type'] != 'code']
             if cands:
